@@ -443,7 +443,9 @@ def gen_structure():
                 assigned.append(fld)
         # anything else that mutates context fields in place before the replacement is suspicious
         inplace = [] if repl else re.findall(r"%s\.(\w+)\s*=" % cv, body)
-        return (bool(repl), how, sorted(carried), sorted(assigned), sorted(inplace))
+        # the replacement must be unconditional: no branch, early exit or loop anywhere in the initialiser
+        branches = bool(re.search(r"\b(if|match|return|while|for|loop)\b|\?\s*;|\?\s*\)", body))
+        return (bool(repl), how, sorted(carried), sorted(assigned), sorted(inplace), branches)
 
     native = initialiser("initialize_from_msgpack_bytes")
     wasm = initialiser("initialize")
@@ -464,7 +466,8 @@ def gen_structure():
     lines.append("def contextFields : List (List Nat) := %s" % strs(fields))
     lines.append("def contextNewSets : List (List Nat) := %s" % strs(new_fields))
     lines.append("def contextNewRestDefault : Bool := %s" % ("true" if new_rest_default else "false"))
-    for nm, (repl, how, carried, assigned, inplace) in (("native", native), ("wasm", wasm)):
+    for nm, (repl, how, carried, assigned, inplace, branches) in (("native", native), ("wasm", wasm)):
+        lines.append("def %sInitHasBranches : Bool := %s" % (nm, "true" if branches else "false"))
         lines.append("def %sInitReplacesWhole : Bool := %s" % (nm, "true" if repl else "false"))
         lines.append("def %sInitConstructor : List Nat := %s" % (nm, name_lit(how)))
         lines.append("def %sInitCarried : List (List Nat) := %s" % (nm, strs(carried)))
